@@ -117,6 +117,9 @@ func (e *Env) verifyFuncWith(fn *ssa.Function, extraKinds []string, auto map[*ss
 	for _, p := range fn.Params {
 		v := ft.freshInput("p$"+p.Name(), p.Type())
 		fr.vals[p] = v
+		if isSlice(p.Type()) {
+			ft.noteLen(v.sLen())
+		}
 		fr.args = append(fr.args, v)
 		for i, l := range leavesOf(p.Type()) {
 			res.Params = append(res.Params, ModelVar{Label: p.Name() + l.Path, Term: v.L[i], Needs: []string{v.L[i].T}})
@@ -195,12 +198,78 @@ func (e *Env) verifyFuncWith(fn *ssa.Function, extraKinds []string, auto map[*ss
 			}
 		}
 	}
+	if con != nil && con.Abstracts != "" {
+		ob := &Oblig{Name: funcName(fn) + "#purity#abstracts " + con.Abstracts + "#0", Kind: "purity", Func: funcName(fn), Text: "abstracts " + con.Abstracts,
+			Hyp: tTrue, Goal: tTrue, Pre: true, Backend: "syntactic purity check over go/ssa"}
+		if why := impure(fn); why == "" {
+			ob.Status = "discharged"
+		} else {
+			ob.Status = "failed-unknown"
+			ob.Output = "function is not a pure function of its argument values: " + why
+		}
+		ft.obs = append(ft.obs, ob)
+	}
 	res.Obs = ft.obs
 	for k := range ft.partial {
 		res.Partial = append(res.Partial, k)
 	}
 	sort.Strings(res.Partial)
 	return res
+}
+
+// impure: "" if the function's result is a deterministic function of its argument values: it writes only
+// memory it allocates itself, reads only its parameters (strings are immutable) and its own allocations, and
+// calls nothing but len/cap.
+func impure(fn *ssa.Function) string {
+	local := map[ssa.Value]bool{}
+	var isLocal func(v ssa.Value) bool
+	isLocal = func(v ssa.Value) bool {
+		switch x := v.(type) {
+		case *ssa.Alloc:
+			return true
+		case *ssa.IndexAddr:
+			return isLocal(x.X)
+		case *ssa.FieldAddr:
+			return isLocal(x.X)
+		case *ssa.Slice:
+			return isLocal(x.X)
+		}
+		return local[v]
+	}
+	for _, p := range fn.Params {
+		if !isString(p.Type()) {
+			if _, _, ok := isIntType(p.Type()); !ok && !isBoolType(p.Type()) {
+				if _, okf := isFloatType(p.Type()); !okf {
+					return "parameter " + p.Name() + " is not a scalar or string"
+				}
+			}
+		}
+	}
+	for _, b := range fn.Blocks {
+		for _, in := range b.Instrs {
+			switch x := in.(type) {
+			case *ssa.Store:
+				if !isLocal(x.Addr) {
+					return "store to non-local memory"
+				}
+			case *ssa.UnOp:
+				if x.Op == token.MUL && !isLocal(x.X) {
+					return "load from non-local memory"
+				}
+				if x.Op == token.ARROW {
+					return "channel receive"
+				}
+			case *ssa.Call:
+				if bi, ok := x.Call.Value.(*ssa.Builtin); ok && (bi.Name() == "len" || bi.Name() == "cap") {
+					continue
+				}
+				return "call to " + calleeName(&x.Call)
+			case *ssa.Go, *ssa.Defer, *ssa.Send, *ssa.Select, *ssa.MapUpdate, *ssa.MakeClosure, *ssa.Range, *ssa.Next:
+				return fmt.Sprintf("unsupported instruction %T", in)
+			}
+		}
+	}
+	return ""
 }
 
 func (fr *frame) obligeAt(hyp Term, kind, text string, pos token.Pos, goal Term) {
@@ -428,6 +497,19 @@ func (fr *frame) callByContract(con *Contract, callee *ssa.Function, c *ssa.Call
 		t := sc.evalBool(en.E)
 		if sc.err != nil {
 			ft.fatal = fmt.Sprintf("%s:%d: ensures (at call): %v", en.File, en.Line, sc.err)
+			return nil
+		}
+		fr.assume(t)
+	}
+	if con.Abstracts != "" && len(results) == 1 {
+		var as []*SExpr
+		for _, p := range callee.Params {
+			as = append(as, &SExpr{Op: "id", Name: p.Name()})
+		}
+		eq := &SExpr{Op: "binop", Name: "==", Args: []*SExpr{{Op: "id", Name: "result"}, {Op: "call", Name: con.Abstracts, Args: as}}}
+		t := sc.evalBool(eq)
+		if sc.err != nil {
+			ft.fatal = fmt.Sprintf("%s:%d: abstracts (at call): %v", con.File, con.Line, sc.err)
 			return nil
 		}
 		fr.assume(t)
